@@ -39,7 +39,7 @@ def find(model, k):
 def render(model):
     out = ""
     for s, v in model:
-        out += "%s: %s\n" % (s, v)
+        out += ("%s:%s\n" if (v == "" or v.startswith("\n")) else "%s: %s\n") % (s, v)
     return out
 
 
@@ -60,7 +60,7 @@ def apply_op(d, model, op, ki, ri, step):
     k, r = KEYS[ki], KEYS[ri]
     before = list(model)
     if op == 0:
-        v = "v%d" % step
+        v = ["v%d" % step, "", "\n x", "w"][(ki + 2 * step + ri) % 4]
         d[k] = v
         i = find(model, k)
         if i >= 0:
@@ -150,8 +150,8 @@ def initial(kind, i0, i1, i2, n0):
         d = Deb822({"b": "1", "a": "2"})
         model = [("b", "1"), ("a", "2")]
     else:
-        d = Deb822("a: 1\nB-c: 2\n# comment\nXy: 3\n multi\n")
-        model = [("a", "1"), ("B-c", "2"), ("Xy", "3\n multi")]
+        d = Deb822("a: 1\nB-c:\nb:\n x\n# comment\nXy: 3\n multi\n")
+        model = [("a", "1"), ("B-c", ""), ("b", "\n x"), ("Xy", "3\n multi")]
     return d, model
 
 
@@ -173,6 +173,8 @@ def h_hist(params, i0: int, i1: int, i2: int, o1: int, k1: int, r1: int, o2: int
             assume(0 <= k < nk)
             if o in (6, 7):
                 assume(0 <= r < nk)
+            elif o == 0:
+                assume(0 <= r < 2)          # selects the kind of value that is assigned
             else:
                 assume(r == 0)
             if o in (8, 9, 10):
